@@ -355,11 +355,25 @@ def check(pid, tier='quick', seed=0, shared=None, write_evidence=True, quiet=Fal
             continue
         seen.add(kf['id'])
         lines.append(f'KNOWN-FINDING: property={pid} {kf["id"]}: {kf["what"]}')
+    bounded = None
     if inconclusive:
         rc = 2
         for m in inconclusive:
             lines.append(f'INCONCLUSIVE property={pid}: {m}')
-    if reported and rc != 2:
+        if not reported and (shared is None or os.environ.get('VERIF_BOUNDED_IN_ALL')):
+            # the verifier cannot decide: bounded stand-in on the real code (labelled bounded, never proof)
+            from .replay import bounded_stand_in
+            path, w, note = bounded_stand_in(pid, inconclusive, seed)
+            if w is not None:
+                rc = 1
+                bounded = w
+                lines.append(f'VIOLATION property={pid} replay={path} obligation=bounded:{w["family"]} '
+                             f'(verifier undecided; bounded search on the real code found: {w["failure"][:300]})')
+            else:
+                bounded = note
+                lines.append(f'BOUNDED property={pid}: {note}')
+    if reported:
+        # a decided obligation failed: that is a violation whatever else is undecided
         rc = 1
         from .replay import make_replay
         for v in reported:
@@ -388,12 +402,13 @@ def check(pid, tier='quick', seed=0, shared=None, write_evidence=True, quiet=Fal
             'known_findings_hit': sorted(seen),
             'thorough': thorough,
             'inconclusive': inconclusive,
+            'bounded_stand_in': bounded,
         },
         'assumptions': ASSUMPTIONS + ['repo function NOT verified (contract assumed): ' + u for u in sorted(unverified)],
         'wall_s': round(wall, 2),
-        'violations': len(reported) if rc == 1 else 0,
+        'violations': (len(reported) or 1) if rc == 1 else 0,
     }
-    if rc == 2 or n_ob == 0:
+    if rc == 2 or n_ob == 0 or (rc == 1 and not reported):
         # not a proof-level result: say so
         evidence['level'] = 'other'
         evidence['coverage']['explanation'] = 'inconclusive run: ' + '; '.join(inconclusive)[:2000] if inconclusive else 'no obligations'
